@@ -145,3 +145,16 @@ Theorem c01_preset_component_tables_as_in_source :
   prerelease_post_dev_extra = src_components_prerelease_post_dev_core /\ build_context = src_components_build_context.
 Proof. exact component_tables_as_source. Qed.
 Print Assumptions c01_preset_component_tables_as_in_source.
+
+(* src/schema/presets.rs translated: every preset, on every variable state, stands for the schema the model uses; its name is read to the same preset;
+   the schema passes the placement validation (the unwrap()s of the builders cannot fail) *)
+Theorem c01_presets_as_in_source : forall p vs, src_schema_with_zerv p vs = Some (schema_with_zerv (model_of p) vs).
+Proof. exact schema_with_zerv_as_source. Qed.
+Theorem c01_preset_names_as_in_source :
+  map (fun e => preset_of_name (fst e)) src_preset_names = map (fun e => Some (model_of (snd e))) src_preset_names /\ forall p, In p (map snd src_preset_names).
+Proof. split; [exact preset_names_as_source|exact every_preset_named]. Qed.
+Theorem c01_preset_schemas_valid : forall p vs s, src_schema_with_zerv p vs = Some s -> schema_validate s = true.
+Proof. exact preset_schemas_valid. Qed.
+Print Assumptions c01_presets_as_in_source.
+Print Assumptions c01_preset_names_as_in_source.
+Print Assumptions c01_preset_schemas_valid.
